@@ -327,6 +327,10 @@ func run(c Case) (pbt.Outcome, error) {
 		out.Classes = append(out.Classes, fmt.Sprintf("predecessor-reporter-%d", c.Pred))
 	}
 	var paceOff atomic.Bool
+	paceMult := 1
+	if c.Dup {
+		paceMult = 2 // every batch is two datagrams at the sink
+	}
 	m3.VerifSetHooks(&m3.VerifHooks{
 		NoteBatch: func(mets []m3thrift.Metric, ct []m3thrift.MetricTag, freeBytes, overheadBytes int32) {
 			mu.Lock()
@@ -334,7 +338,7 @@ func run(c Case) (pbt.Outcome, error) {
 			b := batches
 			overhead, free = overheadBytes, freeBytes
 			mu.Unlock()
-			if !paceOff.Load() && !sink.Pace(b-1, 256) { // never more than a few hundred datagrams in flight (see udpsink.Pace)
+			if !paceOff.Load() && !sink.Pace((b-1)*paceMult, 256) { // never more than a few hundred datagrams in flight (see udpsink.Pace)
 				paceOff.Store(true)
 			}
 		},
